@@ -41,6 +41,11 @@ type C15Case struct {
 
 type c15Shared struct{ V int64 }
 
+type c15RefHost struct {
+	MA map[string]int64
+	SA []int64
+}
+
 // c15Obj is an object created inside a rule and kept in a local.
 type c15Obj struct{ id, bumps int64 }
 
@@ -89,6 +94,15 @@ func (r C15Rule) text() string {
 	case "objwriter":
 		// the local holds an object created by this execution and is the receiver of a method call
 		fmt.Fprintf(&b, "  %s = newobj(@name)\n  gate(@name)\n  chk(@name, %s.Id())\n  %s.Bump()\n  chk2(@name, %s.Id())\n  E(@name)\n", x, x, x, x)
+	case "refholder":
+		// the local is bound to a map-typed field of a pointer-injected struct; another rule
+		// re-points that field while this one is parked; the local keeps the map it was bound to
+		fmt.Fprintf(&b, "  %s = RH.MA\n  bnd(@name, %s[\"k\"])\n  gate(@name)\n  chk(@name, %s[\"k\"])\n  E(@name)\n", x, x, x)
+	case "refholders":
+		// the same with a slice-typed field
+		fmt.Fprintf(&b, "  %s = RH.SA\n  bnd(@name, %s[0])\n  gate(@name)\n  chk(@name, %s[0])\n  E(@name)\n", x, x, x)
+	case "refwriter":
+		fmt.Fprintf(&b, "  RH.MA = newmap()\n  RH.SA = newsl()\n  E(@name)\n")
 	case "reader":
 		fmt.Fprintf(&b, "  FX(@name)\n  gate(@name)\n  leak(@name, %s)\n  E(@name)\n", x)
 	case "cond":
@@ -124,12 +138,12 @@ func (r C15Rule) text() string {
 func init() {
 	register(&Prop{
 		ID:   "C15",
-		Rule: "rule sets of 2-7 rules that all use the same two local names: writers (x = uniq(); gate(); chk(x)), readers that never assign (must fail in every model and call), conditional writers driven by an injected flag that changes between calls, writers that read their local as the argument of a three-level call statement, writers whose local holds an object they created and use as a method receiver, writers/readers of a shared injected struct field, rules whose forRange key variable is a pointer-injected name and rules that read that name; 2-3 calls per case over all execution models of engine and pool, DAG layers that repeat a rule, 2-3 simultaneous identical pool requests, writers parked on Hold gates between assignment and read; oracle: every chk receives exactly the value its own execution drew (multiset of drawn and checked values per rule equal, no value seen twice), a reader that never assigned never gets a value, a conditional writer fails whenever its flag is off even if an earlier call or a concurrent execution assigned the local, a shared field written by an earlier rule of a sorted call is seen by the later rule, an injected forRange key holds the last key afterwards - for the host, for the looping rule and for later rules of a sorted call. Two pointers are injected under the names X and Y, which differ only in case from the locals: they must keep their values and never serve as the locals. Non-trivial: >= 2 rules (or >= 2 concurrent executions of one rule) share a local name and a writer was parked; distinct by case hash",
+		Rule: "rule sets of 2-7 rules that all use the same two local names: writers (x = uniq(); gate(); chk(x)), readers that never assign (must fail in every model and call), conditional writers driven by an injected flag that changes between calls, writers that read their local as the argument of a three-level call statement, writers whose local holds an object they created and use as a method receiver, writers/readers of a shared injected struct field, holders that bind their local to a map- or slice-typed field of an injected struct and read it again after the gate while other rules re-point that field, rules whose forRange key variable is a pointer-injected name and rules that read that name; 2-3 calls per case over all execution models of engine and pool, DAG layers that repeat a rule, 2-3 simultaneous identical pool requests, writers parked on Hold gates between assignment and read; oracle: every chk receives exactly the value its own execution drew (multiset of drawn and checked values per rule equal, no value seen twice), a reader that never assigned never gets a value, a conditional writer fails whenever its flag is off even if an earlier call or a concurrent execution assigned the local, a shared field written by an earlier rule of a sorted call is seen by the later rule, an injected forRange key holds the last key afterwards - for the host, for the looping rule and for later rules of a sorted call. Two pointers are injected under the names X and Y, which differ only in case from the locals: they must keep their values and never serve as the locals. Non-trivial: >= 2 rules (or >= 2 concurrent executions of one rule) share a local name and a writer was parked; distinct by case hash",
 		New:  func() interface{} { return &C15Case{} },
 		Gen: func(t *rapid.T) interface{} {
 			c := &C15Case{QuiesMs: 2}
 			n := uni(t, "nrules", 2, 7)
-			kinds := []string{"writer", "writer", "writer", "reader", "reader", "reader", "cond", "cond", "sharedw", "sharedr", "wpanic", "wpanic", "werror", "wretfail", "ranger", "ranger", "rangeinj", "seeinj", "objwriter", "objwriter", "writer3", "writer3"}
+			kinds := []string{"writer", "writer", "writer", "reader", "reader", "reader", "cond", "cond", "sharedw", "sharedr", "wpanic", "wpanic", "werror", "wretfail", "ranger", "ranger", "rangeinj", "seeinj", "objwriter", "objwriter", "writer3", "writer3", "refholder", "refholders", "refwriter", "refwriter"}
 			for i := 0; i < n; i++ {
 				c.Rules = append(c.Rules, C15Rule{Name: fmt.Sprintf("r%d", i), Sal: int64(uni(t, fmt.Sprintf("sal%d", i), -2, 4)),
 					Kind: kinds[uni(t, fmt.Sprintf("kind%d", i), 0, len(kinds)-1)], Local: []string{"x", "x", "y", "_1"}[uni(t, fmt.Sprintf("local%d", i), 0, 3)]})
@@ -169,7 +183,7 @@ func init() {
 			c.Gates = map[string]int{}
 			for _, r := range c.Rules {
 				switch {
-				case (r.Kind == "writer" || r.Kind == "writer3" || r.Kind == "objwriter" || r.Kind == "cond") && pct(t, "hold_"+r.Name, 45):
+				case (r.Kind == "writer" || r.Kind == "writer3" || r.Kind == "objwriter" || r.Kind == "cond" || r.Kind == "refholder" || r.Kind == "refholders") && pct(t, "hold_"+r.Name, 45):
 					c.Gates[r.Name] = obs.Hold
 				case pct(t, "yield_"+r.Name, 30):
 					c.Gates[r.Name] = obs.Yield
@@ -192,6 +206,12 @@ func checkC15(ci interface{}, x *Ctx) {
 	apis["chk2"] = func(n string, v int64) { env.log.Add("C2", n, v) }
 	apis["H3"] = &c15Host3{In: &c15Inner3{log: env.log}}
 	apis["newobj"] = func(n string) *c15Obj { v := atomic.AddInt64(&ctr, 1); env.log.Add("U", n, v); return &c15Obj{id: v} }
+	// refholder / refwriter: a struct whose map and slice fields are re-pointed by refwriter rules
+	// (a word-sized store; the maps and slices themselves are never modified)
+	apis["RH"] = &c15RefHost{MA: map[string]int64{"k": atomic.AddInt64(&ctr, 1)}, SA: []int64{atomic.AddInt64(&ctr, 1)}}
+	apis["bnd"] = func(n string, v int64) { env.log.Add("U", n, v) }
+	apis["newmap"] = func() map[string]int64 { return map[string]int64{"k": atomic.AddInt64(&ctr, 1)} }
+	apis["newsl"] = func() []int64 { return []int64{atomic.AddInt64(&ctr, 1)} }
 	apis["leak"] = func(n string, v interface{}) { env.log.Add("LEAK", n, 0) }
 	apis["wrote"] = func(n string, v int64) { env.log.Add("W", n, v) }
 	apis["see"] = func(n string, v int64) { env.log.Add("SEE", n, v) }
@@ -363,6 +383,10 @@ func checkC15(ci interface{}, x *Ctx) {
 			}
 			if r.Kind == "cond" && !cc.Flag && len(ch) > 0 {
 				x.Violation("stale-local/"+shape, "call %d %s: conditional writer %q did not assign %q in this call (flag off) but read the value %v (from an earlier call or another execution)\ntrace %v", ci2, cc.Call, r.Name, r.Local, ch, trace)
+				return
+			}
+			if (r.Kind == "refholder" || r.Kind == "refholders") && fmt.Sprint(d) != fmt.Sprint(ch) {
+				x.Violation("re-pointed-field-seen-through-local/"+shape, "call %d %s: rule %q bound its local %q to a map / slice field and saw the values %v then; after the gate its executions read %v through the local (another rule re-points the field, it does not touch the old map / slice)\ntrace %v", ci2, cc.Call, r.Name, r.Local, d, ch, trace)
 				return
 			}
 			if (r.Kind == "writer" || r.Kind == "writer3" || r.Kind == "objwriter" || (r.Kind == "cond" && cc.Flag)) && fmt.Sprint(d) != fmt.Sprint(ch) {
